@@ -107,11 +107,16 @@ class Job:
     __slots__ = ("tag", "payload", "pid", "fd", "buf", "t0", "stackfile", "timeout")
 
 
+CHILD_STACK_FILE = None
+
+
 def _child(fn, payload, wfd: int, stackfile: str, timeout: float):
+    global CHILD_STACK_FILE
     code = 0
     try:
         try:
             sf = open(stackfile, "w")
+            CHILD_STACK_FILE = sf
             faulthandler.enable(file=sf)
             if timeout and timeout > 2:
                 faulthandler.dump_traceback_later(max(1.0, timeout - 1.0), file=sf, exit=False)
